@@ -722,8 +722,7 @@ class IteratorQueue(IterableQueue[_ValueT]):
             continue
           raise TimeoutError(f'Dequeue timeout={self.timeout}secs.') from e
 
-  def put_nowait(self, value: _ValueT) -> None:
-    """Puts a value to the queue, raieses if queue is full immediately."""
+  def _put_nowait(self, value: _ValueT) -> None:
     # When the queue is full, this will raise queue.Full or asyncio.QueueFull.
     self._queue.put_nowait(value)
     with self._states_lock:
@@ -732,12 +731,20 @@ class IteratorQueue(IterableQueue[_ValueT]):
           'chainable: %s', f'"{self.name}" enqueued cnt {self._progress.cnt}.'
       )
 
+  def put_nowait(self, value: _ValueT) -> None:
+    """Puts a value to the queue, raieses if queue is full immediately."""
+    self._put_nowait(value)
+    # An element arrived: wakes a consumer blocked on the empty queue, also for
+    # a producer that only polls with put_nowait().
+    with self._dequeue_lock:
+      self._dequeue_lock.notify()
+
   def put(self, value: _ValueT) -> None:
     """Puts a value to the queue, waits for timeout if queue is full."""
     with self._enqueue_lock:
       while not self.enqueue_done:
         try:
-          self.put_nowait(value)
+          self._put_nowait(value)
           _release_and_notify(self._enqueue_lock, notify=self._dequeue_lock)
           return
         except (queue.Full, asyncio.QueueFull) as e:
